@@ -107,7 +107,12 @@ func (l *Loaded) Analyse(i int) (an *analysis.Analysis, pi *PanicInfo) {
 }
 
 // DartRoot is the directory handed to dart.Generate (the common root of the sources).
-func (l *Loaded) DartRoot() string { return l.Prog.Dir(l.Prog.Root()) }
+func (l *Loaded) DartRoot() string {
+	if l.DiskDir != "" {
+		return l.DiskDir
+	}
+	return l.Prog.Dir(l.Prog.Root())
+}
 
 // RunTarget runs one generator on the analyses (only dart uses more than the first).
 func (l *Loaded) RunTarget(target string, ans []*analysis.Analysis) (out Outputs, pi *PanicInfo) {
